@@ -417,7 +417,10 @@ def compare_atom(ctx, atom, mm, p, k=0, what="atom"):
 
 
 # ----------------------------------------------------------------- index generation
-def gen_index(rng, n, allow_dups, allow_strided, allow_int=True):
+T_NARROW = "narrow_index_dtype_negative"     # negative entries in an index array whose integer type cannot hold the atom count
+
+
+def gen_index(rng, n, allow_dups, allow_strided, allow_int=True, narrow_ok=True):
     """Return (python index object, model descriptor, loggable, plain) for one axis of length n."""
     kinds = ["slice", "slice", "mask", "array", "array", "list", "empty"] + (["int", "int"] if allow_int and n > 0 else [])
     kind = str(rng.choice(kinds))
@@ -457,6 +460,9 @@ def gen_index(rng, n, allow_dups, allow_strided, allow_int=True):
         return list(vals), ("array", vals), ("list", vals), False
     lo, hi = min(vals), max(vals)
     cands = [d for d in _INT_DTYPES if np.iinfo(d).min <= lo and hi <= np.iinfo(d).max]
+    if not narrow_ok and lo < 0:
+        # open finding: a bonded container turns negative entries into positive ones inside the index array's own type
+        cands = [d for d in cands if np.iinfo(d).max >= n] or ["int64"]
     dt = str(rng.choice(cands))
     return np.array(vals, dtype=dt), ("array", vals), ("array", dt, vals), False
 
@@ -520,7 +526,7 @@ def op_getitem_array(h, e):
     ctx, rng, mm = h.ctx, h.rng, e.mm
     dups = h.allow_dups and mm.bonds is None
     strided = mm.bonds is None or ctx.allowed("noncontiguous_mask")
-    idx, desc, lg, plain = gen_index(rng, mm.n, dups, strided)
+    idx, desc, lg, plain = gen_index(rng, mm.n, dups, strided, narrow_ok=(mm.bonds is None or ctx.allowed(T_NARROW)))
     wrap = rng.random() < 0.15
     ctx.log("a.getitem", "(...,)" if wrap else "", lg)
     ctx.op("array[%s]" % lg[0])
@@ -592,7 +598,7 @@ def op_getitem_stack(h, e):
         return
     dups = h.allow_dups and mm.bonds is None
     strided = mm.bonds is None or ctx.allowed("noncontiguous_mask")
-    aidx, adesc, alg, aplain = gen_index(rng, mm.n, dups, strided)
+    aidx, adesc, alg, aplain = gen_index(rng, mm.n, dups, strided, narrow_ok=(mm.bonds is None or ctx.allowed(T_NARROW)))
     if adesc[0] == "int" and adesc[1] < 0 and form != "2d_int_first" and not ctx.allowed("stack_2d_negative_atom_int"):
         aidx = adesc[1] + mm.n
         adesc = alg = ("int", aidx)
@@ -800,7 +806,7 @@ def op_set_element(h, e):
             e.obj[i if rng.random() < 0.7 else np.int32(i)] = atom
             pos = [i % mm.n]
         else:
-            idx, desc, lg, _ = gen_index(rng, mm.n, True, True, allow_int=False)
+            idx, desc, lg, _ = gen_index(rng, mm.n, True, True, allow_int=False, narrow_ok=(mm.bonds is None or ctx.allowed(T_NARROW)))
             if not isinstance(idx, np.ndarray):
                 idx = np.array(idx, dtype=np.int64 if desc[0] == "array" else bool) if not isinstance(idx, slice) else None
             if idx is None:
@@ -1156,6 +1162,23 @@ def _probe_strided_mask_bonded(ctx):
         compare(ctx, res, mm.select_atoms([i for i in range(n) if mask[i]]), "array[strided mask]")
 
 
+def _probe_narrow_index_dtype(ctx):
+    """A bonded AtomArray with more atoms than the index array's integer type can count, indexed with negative entries
+    (numpy accepts np.array([-114, 3], dtype=int8) as index for 132 elements)."""
+    rng = np.random.default_rng(15)
+    for n, dt, vals in ((132, "int8", [27, -114, -6, 3, -51]), (130, "int8", [-1, 0]), (200, "int8", [-100, 100, -3])):
+        mm = gen_model(rng, "array", n=n, bonds=True)
+        obj = build_real(mm)
+        idx = np.array(vals, dtype=dt)
+        ctx.log("a[int8 index array with negative entries]", n, vals); ctx.op("probe_narrow_index_dtype")
+        ctx.oracle("index_object_accepted")
+        try:
+            res = obj[idx]
+        except Exception as ex:
+            ctx.fail("index_object_accepted", "%s index array %s refused on a bonded AtomArray of %d atoms: %s: %s" % (dt, vals, n, type(ex).__name__, ex))
+        compare(ctx, res, mm.select_atoms([v % n for v in vals]), "array[%s index array]" % dt)
+
+
 def _probe_repeat_stack(ctx):
     """repeat() of a stack with >= 2 models and >= 2 repetitions (documented coord layout (k, m, n, 3))."""
     rng = np.random.default_rng(14)
@@ -1178,4 +1201,5 @@ PROBES = {
     "del_model_with_box": _probe_del_model_with_box,
     "stack_2d_negative_atom_int": _probe_stack_2d_negative_int,
     "noncontiguous_mask": _probe_strided_mask_bonded,
+    T_NARROW: _probe_narrow_index_dtype,
 }
